@@ -1,5 +1,6 @@
 """core / std basics: mem, Try, Option/Result combinators, conversions, Clone/PartialEq/Default,
 integer helpers, smart pointers, futures plumbing, logging."""
+import os
 import re
 import z3
 from ..interp import model, Inconclusive, Panic, Infeasible, StopPath, last_seg, strip_generics
@@ -680,6 +681,16 @@ def m_pin_get(c, p):
 def m_pin_deref(c, p):
     v = deref(c.ip, p) if isinstance(p, Ptr) else p
     return v.fields[0]
+
+
+@model(r'^(?:std::sync::|std::rc::|alloc::sync::)?(?:Arc|Rc)::<.*>::ptr_eq$')
+def m_arc_ptr_eq(c, a, b):
+    """Arc::ptr_eq(&a, &b): the two handles point to the same allocation."""
+    ip = c.ip
+    x = ip.load(a.cell, a.path) if isinstance(a, Ptr) else a        # one level: the Arc handle itself
+    y = ip.load(b.cell, b.path) if isinstance(b, Ptr) else b
+    same = isinstance(x, Ptr) and isinstance(y, Ptr) and x.cell is y.cell and tuple(x.path) == tuple(y.path)
+    return BV(1, int(same))
 
 
 @model(r'^<.* as (?:std::future::)?IntoFuture>::into_future$')
